@@ -195,9 +195,9 @@ class C17(Prop):
                     obs.append({"err": "RecursionError"})
                 except Exception as e:  # noqa
                     obs.append({"err": type(e).__name__})
-        return {"state": st, "obs": obs, "body": self._body_views(case, coll, b) if coll is not None else []}
+        return {"state": st, "obs": obs, "body": self._body_views(case, coll, b, obs) if coll is not None else []}
 
-    def _body_views(self, case, coll, builder):
+    def _body_views(self, case, coll, builder, lookups=()):
         """execute every name (as a string, a (name, kwargs) pair or a parsed context) with an otherwise
         empty Config and record what the task body sees as its context's config"""
         from invoke import Executor
@@ -224,8 +224,22 @@ class C17(Prop):
                             req = parsed[0]
                     except Exception:  # not a command-line name: executed as a pair
                         req = (nm, {})
+                # every other name is executed as the SECOND task of a two-task session of one Executor,
+                # after a task of (preferably) another collection: what ran before must not matter
+                first = None
+                i = case["names"].index(nm)
+                if i % 2 == 0 and "ok" in (lookups[i] if i < len(lookups) else {}):
+                    mine = lookups[i]["ok"][0]
+                    for j in list(range(i + 1, len(case["names"]))) + list(range(0, i)):
+                        if "ok" in lookups[j] and lookups[j]["ok"][0] != mine and case["names"][j]:
+                            first = case["names"][j]
+                            break
                 del seen[:]
                 try:
+                    if first is not None:
+                        Executor(coll, config=sess.construct()).execute(first, req)
+                        out.append({"ok": seen[1]} if len(seen) == 2 else {"err": "Bodies%d" % len(seen)})
+                        continue
                     Executor(coll, config=sess.construct()).execute(req)
                     out.append({"ok": seen[0]} if len(seen) == 1 else {"err": "Bodies%d" % len(seen)})
                 except RecursionError:
